@@ -1,7 +1,7 @@
 (** Pull phase, part 5: reads of signals and of derived signals meet the reader
     specification. *)
 From Coq Require Import List ZArith Bool Arith Lia.
-From LV Require Import Reactive.Graph Reactive.GraphLemmas Reactive.GraphInvariant
+From LV Require Import Reactive.Graph Reactive.GraphLemmas Reactive.GraphReplay Reactive.GraphInvariant
                        Reactive.GraphMarkProofs Reactive.GraphPullBase Reactive.GraphPullSteps
                        Reactive.GraphPullDefs Reactive.GraphPullEval.
 Import ListNotations.
@@ -42,10 +42,17 @@ Lemma read_sig U R i tk iv : decl_of p i = DSig tk iv ->
   node_read p U R m c i s = (s', v) ->
   Inv stk t s' /\ TopOK c s' /\ PullRel (S i) stk (fst c) s s' /\
   (memob i = true -> st (getn s' i) = Clean /\ cache (getn s' i) = Some v) /\
-  (sigb i = true -> v = sval (getn s' i)).
+  (sigb i = true -> v = sval (getn s' i)) /\
+  Growth c s s' (fun D => forall rest, rlvl p (S i) m (snd c) i (D ++ rest) = Some (v, rest)).
 Proof.
   intros Hd m c s stk t s' v Hit I C T Hr. unfold node_read in Hr. rewrite Hd in Hr.
   assert (Hnm : memob i = false) by (unfold GraphInvariant.memob; rewrite Hd; auto).
+  assert (Hwr : forall w, fst c = Some w -> w < nlen s).
+  { intros w Hw. pose proof (who_on_stack stk c w C Hw) as Hin.
+    destruct (inv_frame _ _ _ _ I w Hin) as (_&_&_&_&F5&_). rewrite (wf_len p s (inv_wf _ _ _ _ I)). exact F5. }
+  assert (Hlv : forall t0 rest, Bool.eqb t0 (m && snd c) = true ->
+            rlvl p (S i) m (snd c) i ((i, sval (getn s i), t0) :: rest) = Some (sval (getn s i), rest)).
+  { intros t0 rest Ht. cbn [rlvl]. rewrite Nat.eqb_refl, Hd. rewrite ?Nat.eqb_refl. cbn [andb]. rewrite Ht. reflexivity. }
   destruct (m && snd c) eqn:Et.
   - (* tracked *)
     apply andb_prop in Et as [-> Hs].
@@ -60,16 +67,24 @@ Proof.
     + intros Hm; congruence.
     + split; auto. split; auto. split.
       { rewrite Hw. eapply PullRel_trans; eauto. }
-      split; [intros Hm; congruence|].
-      intros _. destruct (log_read_other_fields c i (sval (getn s1 i)) true true s1 i) as (->&_). reflexivity.
+      split; [intros Hm; congruence|]. split.
+      { intros _. destruct (log_read_other_fields c i (sval (getn s1 i)) true true s1 i) as (->&_). reflexivity. }
+      intros w Hw0. assert (Hsv : sval (getn s1 i) = sval (getn s i)) by (apply (pr_sval _ _ _ _ _ _ P1)).
+      exists [(i, sval (getn s i), true)]. split.
+      { rewrite Hsv. rewrite log_read_rlog_who; auto; [rewrite Hrl; reflexivity|].
+        rewrite (pr_len _ _ _ _ _ _ P1). auto. }
+      intros rest. rewrite Hsv. apply Hlv. reflexivity.
   - (* untracked *)
     assert (Hs1 : (if m then track c i s else s) = s).
     { destruct m; auto. cbn in Et. apply track_none. apply obs_of_untracked; auto. }
     rewrite Hs1 in Hr. inversion Hr; subst s' v. clear Hr.
     destruct (Inv_log_untracked p stk t c i (sval (getn s i)) true s I C T) as (I2 & T2 & P2).
     split; auto. split; auto. split; auto.
-    split; [intros Hm; congruence|].
-    intros _. destruct (log_read_other_fields c i (sval (getn s i)) false true s i) as (->&_). reflexivity.
+    split; [intros Hm; congruence|]. split.
+    { intros _. destruct (log_read_other_fields c i (sval (getn s i)) false true s i) as (->&_). reflexivity. }
+    intros w Hw0. exists [(i, sval (getn s i), false)]. split.
+    { apply log_read_rlog_who; auto. }
+    intros rest. apply Hlv. reflexivity.
 Qed.
 
 Lemma read_der U R i e : decl_of p i = DDer e -> RSpec i R ->
@@ -77,7 +92,8 @@ Lemma read_der U R i e : decl_of p i = DDer e -> RSpec i R ->
   node_read p U R m c i s = (s', v) ->
   Inv stk t s' /\ TopOK c s' /\ PullRel (S i) stk (fst c) s s' /\
   (memob i = true -> st (getn s' i) = Clean /\ cache (getn s' i) = Some v) /\
-  (sigb i = true -> v = sval (getn s' i)).
+  (sigb i = true -> v = sval (getn s' i)) /\
+  Growth c s s' (fun D => forall rest, rlvl p (S i) m (snd c) i (D ++ rest) = Some (v, rest)).
 Proof.
   intros Hd HR m c s stk t s' v Hit I C T Hr. unfold node_read in Hr. rewrite Hd in Hr.
   assert (Hnm : memob i = false) by (unfold GraphInvariant.memob; rewrite Hd; auto).
@@ -92,14 +108,18 @@ Proof.
   assert (T' : TopOK c' s) by (unfold TopOK in *; rewrite Hfc; auto).
   destruct (eval p R false c' e s) as [s2 x] eqn:Ev.
   inversion Hr; subst s' v. clear Hr.
-  destruct (eval_spec p i R HR e c' s stk t s2 x Hok ltac:(lia) I C' T' Ev) as (I2 & T2 & P2).
+  destruct (eval_spec p i R HR e c' s stk t s2 x Hok ltac:(lia) I C' T' Ev) as (I2 & T2 & P2 & G2).
+  assert (Hsc : snd c' = m && snd c) by (unfold c'; destruct m; reflexivity).
   rewrite log_read_nolog.
   split; [apply Inv_emit; auto|]. split.
   { unfold TopOK in *. rewrite Hfc in T2. destruct (fst c); auto. }
   split.
   { rewrite Hfc in P2. eapply PullRel_trans; [eapply PullRel_weaken; [|exact P2]; lia|].
     apply PullRel_emit. }
-  split; intros; congruence.
+  split; [intros; congruence|]. split; [intros; congruence|].
+  intros w Hw0. rewrite <- Hfc in Hw0. destruct (G2 w Hw0) as (D & R2 & Q2). exists D.
+  split; [rewrite getn_emit; exact R2|].
+  intros rest. cbn [rlvl]. rewrite Nat.eqb_refl, Hd, <- Hsc. apply Q2.
 Qed.
 
 End P.
